@@ -6808,3 +6808,37 @@ REGISTRY.setdefault("C16", []).append(_under(c08_lost_wakeup, "C16", "c08_", "c1
 # C18: a transactional post cut into several frames keeps its transactional state on every frame (the resource side
 #      sorts incoming transfer FRAMES by that state)
 REGISTRY.setdefault("C18", []).append(_under(c06_transfer_split, "C18", "c06_transfer_split", "c18_a_split_post_keeps_its_transaction_on_every_frame"))
+
+
+# ---- C02: sending a transfer never forgets an outstanding delivery ----------------------------------------------
+
+
+def c02_send_step_keeps_routing(env):
+    o = Obligation("c02_sending_never_forgets_an_outstanding_delivery", "C02")
+    o.desc = "Session::on_outgoing_transfer_inner (the send step of every transfer frame): the table that routes the peer's dispositions back to the sending link (delivery-id -> link, tag) only GROWS here -- one insert under the delivery-id just stamped when the transfer starts an unsettled delivery, and no removal, retain, clear or drain on any path: entries leave the table only when a disposition settles them (on_incoming_disposition); an entry dropped by age or count leaves a slow delivery's send unresolved for good"
+    fn = env.fn(r"^session::<impl at [^>]*>::on_outgoing_transfer_inner$")
+    o.functions = [fn.name]
+    o.bounds = ["one call; every transfer (tag present or not, settled or not), every counter value; every path"]
+    o.assumes = ["HashMap::insert adds or replaces one entry (std contract)"]
+    ex = env.executor(max_visits=3)
+    S, v = session_pre(env)
+    paths = ex.run(fn, {"_1": mir.Ref(("@self",), True), "@self": S, "_2": mir.Agg("handle"), "_3": mir.Agg("transfer"), "_4": mir.Agg("payload")})
+
+    def replay(m):
+        return "scn slow_settlement 4", (lambda js: js.get("panic") or not js["first_send_resolved"])
+
+    n = 0
+    for i, p in enumerate(paths):
+        if p.end != "return":
+            continue
+        n += 1
+        maps = [c for c in p.calls if re.search(r"^HashMap::<\((fe2o3_amqp_types::)?(definitions::)?Role, u32\)", c[0])]
+        inserts = [c for c in maps if re.search(r">::insert$", c[0])]
+        shrinking = [c for c in maps if re.search(r">::(remove|remove_entry|retain|clear|drain|extract_if|shrink_to_fit)(::<.*>)?$", c[0])]
+        o.prove(f"path{i}:nothing-leaves-the-routing-table", ex.assumptions + p.cond, z3.BoolVal(not shrinking), replay=replay)
+        o.prove(f"path{i}:at-most-one-entry-is-added", ex.assumptions + p.cond, z3.BoolVal(len(inserts) <= 1), replay=replay)
+    o.cover("paths", [z3.BoolVal(n > 1)])
+    return [o]
+
+
+REGISTRY.setdefault("C02", []).append(c02_send_step_keeps_routing)
